@@ -25,4 +25,9 @@ func newGenCommand$2$1 returns (err)
   ensures @prints-the-document [C17] err == nil ==> gerr == nil && prLen == old(prLen) + 1 && PrintedStr(old(prLen), 0, doc)
   modifies ghost(bufSticky, sinkFailed, sinkPend, prLen, prSink, prArg, prArgs, prFmt)
   ensures @reports-loss [C17] err == nil ==> sinkFailed[payload(o.ReporterConfig.Output)] == old(sinkFailed[payload(o.ReporterConfig.Output)])
+
+func newGenCommand returns (cmd)
+  props C16 C08
+  ensures @name [C16] cmd != nil && cmd.Name == "gen"
+  ensures @subcommands [C16] len(cmd.Subcommands) == 2 && cmd.Subcommands[0].Name == "man" && cmd.Subcommands[1].Name == "markdown"
 @*/
